@@ -31,8 +31,7 @@ m("C01", "no-interleave-check", STREAM, 'if state["_fragment_slices_remaining"] 
   'if False:\n                raise PictureInterleavedWithFragmentedPicture(')
 m("C01", "picnum-mask-16", ASSERT, '(state["_last_picture_number"] + 1) & 0xFFFFFFFF', '(state["_last_picture_number"] + 1) & 0xFFFF')
 m("C01", "no-odd-first-field", ASSERT, "if early_field and not even_number:", "if False:")
-m("C01", "next-offset-zero-not-exempt", STREAM, "if last_next_parse_offset != 0 and last_next_parse_offset != true_parse_offset:",
-  "if last_next_parse_offset != true_parse_offset:")
+m("C01", "fragment-zero-next-offset-rejected", STREAM, "    elif not (is_picture(state) or is_fragment(state)):", "    elif not is_picture(state):")
 m("C01", "seqhdr-compare-lt", SEQH, 'if this_sequence_header_bytes != state["_last_sequence_header_bytes"]:',
   'if this_sequence_header_bytes < state["_last_sequence_header_bytes"]:')
 m("C01", "no-incomplete-fragment-check", STREAM, '    if state["_fragment_slices_remaining"] != 0:\n        raise SequenceContainsIncompleteFragmentedPicture(',
